@@ -77,7 +77,12 @@ bool OPNMIDIplay::LoadBank(FileAndMemReader &fr)
         errorStringOut = "Custom bank: Out of memory before of read!";
         return false;
     }
-    fr.read(raw_file_data, 1, fsize);
+    if(fr.read(raw_file_data, 1, fsize) != fsize)
+    {
+        free(raw_file_data);
+        errorStringOut = "Custom bank: Can't read the whole file!";
+        return false;
+    }
 
     // Parse bank file from the memory
     wopn = WOPN_LoadBankFromMem((void*)raw_file_data, fsize, &err);
